@@ -75,6 +75,9 @@ func (m *Model) RunSharedWrites(s *Sink, rule string, roots []*ssa.Function, mod
 				if isSyncPrimitive(w.o.g) && !synced {
 					continue
 				}
+				if holdsSyncPrimitive(w.o.g) && !synced && mode == "race" {
+					continue // a struct that carries its own mutex: taken to be guarded by it (what it remembers is C16's business)
+				}
 				gname := w.o.g.Pkg.Pkg.Name() + "." + canonGlobalName(w.o.g)
 				if why, ok := allow[gname]; ok {
 					s.Note(rule, fmt.Sprintf("%s|sets %s", fnKey(root), gname), w.pos, "specified effect of this entry point: %s", why)
@@ -155,9 +158,27 @@ func (m *Model) RunSharedWrites(s *Sink, rule string, roots []*ssa.Function, mod
 	}
 }
 
+// isSyncPrimitive: the variable is a mutex, a Once or an atomic (not a struct that merely contains one).
 func isSyncPrimitive(g *ssa.Global) bool {
+	t := g.Type()
+	if p, ok := t.Underlying().(*types.Pointer); ok {
+		t = p.Elem()
+	}
+	if p, ok := t.Underlying().(*types.Pointer); ok {
+		t = p.Elem()
+	}
+	n, ok := t.(*types.Named)
+	if !ok || n.Obj().Pkg() == nil {
+		return false
+	}
+	pk := n.Obj().Pkg().Path()
+	return (pk == "sync" && (n.Obj().Name() == "Mutex" || n.Obj().Name() == "RWMutex" || n.Obj().Name() == "Once")) || pk == "sync/atomic"
+}
+
+// holdsSyncPrimitive: a struct variable with a mutex among its fields.
+func holdsSyncPrimitive(g *ssa.Global) bool {
 	ts := types.TypeString(g.Type(), nil)
-	return strings.Contains(ts, "sync.Mutex") || strings.Contains(ts, "sync.RWMutex") || strings.Contains(ts, "sync.Once") || strings.Contains(ts, "atomic.")
+	return !isSyncPrimitive(g) && (strings.Contains(ts, "sync.Mutex") || strings.Contains(ts, "sync.RWMutex"))
 }
 
 // RunBuiltinPurity: no builtin-table function writes through its receiver or arguments.
